@@ -9,7 +9,7 @@ pub open spec fn is_reserved_user_ident(id: Ident, prefix: Seq<char>) -> bool {
 // visitor's no-op override), so the list keeps its length, directives stay untouched, non-directives stay non-directives;
 // every identifier of the block has been handed to visit_mut_ident (registered in `variables`); accounting as for expressions.
 impl<'a> VisitMutWith<OperationTransformVisitor<'a>> for BlockStmt {
-    open spec fn vmc_req(self, v: OperationTransformVisitor<'a>) -> bool { v.transform_status.telemetry.wf() && v.ctx.root }
+    open spec fn vmc_req(self, v: OperationTransformVisitor<'a>) -> bool { v.transform_status.telemetry.wf() && v.ctx.root && v.ident_provider.st().counter == 0 }
     #[verifier::prophetic]
     open spec fn vmc_ens(self, v: OperationTransformVisitor<'a>, s2: BlockStmt, v2: OperationTransformVisitor<'a>) -> bool {
         &&& opv_frame(v, v2)
